@@ -382,3 +382,30 @@ Qed.
 
 Lemma klt_sites L : all_sites L -> klt inb fl N L.
 Proof. intros HL i Hi Hb. apply fl_lt; auto. Qed.
+
+Lemma odd_of_mod2_0 z : z mod 2 = 0 -> Z.odd z = false.
+Proof. intros H. rewrite Zmod_odd in H. destruct (Z.odd z); [discriminate|reflexivity]. Qed.
+Lemma odd_of_mod2_1 z : z mod 2 = 1 -> Z.odd z = true.
+Proof. intros H. rewrite Zmod_odd in H. destruct (Z.odd z); [reflexivity|discriminate]. Qed.
+
+Definition adj (s q : idx) : bool := (Z.abs (fst s - fst q) + Z.abs (snd s - snd q) =? 1).
+Lemma cnt_nbrs s q : cnt s (plaq_sites q) = Z.b2z (adj s q).
+Proof. destruct s as [a b], q as [r c]. unfold plaq_sites, adj, cnt, zeqb2. cbn [fold_right fst snd]. lia. Qed.
+Lemma cnt_plaq s q : cnt s (filter inb (plaq_sites q)) = Z.b2z (inb s) * Z.b2z (adj s q).
+Proof. rewrite cnt_filter, cnt_nbrs. reflexivity. Qed.
+
+(* primal plaquette indices: odd row, even column; dual: even row, odd column *)
+Definition is_pp (p : idx) : Prop := fst p mod 2 = 1 /\ snd p mod 2 = 0.
+Definition is_dp (q : idx) : Prop := fst q mod 2 = 0 /\ snd q mod 2 = 1.
+
+Lemma plaq_overlap_even p q : is_pp p -> is_dp q -> inb p = true -> inb q = true ->
+  Z.odd (pairs (filter inb (plaq_sites p)) (filter inb (plaq_sites q))) = false.
+Proof.
+  intros [Hp1 Hp2] [Hq1 Hq2] Hip Hiq. apply odd_of_mod2_0. rewrite pairs_filter.
+  destruct p as [r c], q as [r' c'].
+  change (plaq_sites (r, c)) with [(r - 1, c); (r + 1, c); (r, c - 1); (r, c + 1)]. cbn [fold_right]. rewrite !cnt_plaq.
+  rewrite !inb_unfold in *. unfold adj. cbn [fst snd] in *.
+  assert (Hd : (r' = r + 1 \/ r' = r - 1 \/ (r' <> r + 1 /\ r' <> r - 1))) by lia.
+  assert (Hd2 : (c' = c + 1 \/ c' = c - 1 \/ (c' <> c + 1 /\ c' <> c - 1))) by lia.
+  destruct Hd as [-> | [-> | Hd]]; destruct Hd2 as [-> | [-> | Hd2]]; lia.
+Qed.
